@@ -202,6 +202,8 @@ func runC09(c *Ctx) {
 	gmHealth(c, p, "R09.2")
 	checkOutputCompleteness(c, p, "R09.3")
 	checkErrorDiscipline(c, p, "R09.4")
+	// action text becomes Go only if every $-reference is rewritten, whatever surrounds it
+	checkSDTVal(c, p, "R09.5")
 	c.Assumptions = append(c.Assumptions, "the -p package path is a valid import path; the file header and the action expressions are valid Go (the property's premise)",
 		"NOT decided: termination of gocc for every input (Emoves, Closure, GetItemSets are worklist loops over unbounded grammars)",
 		"go/format either fails or returns an equivalent program")
